@@ -601,10 +601,40 @@ def _record(case, fault, entry, token, token2):
     return {"case": case, "fault": fault, "entry": entry, "token": token, "token2": token2}
 
 
+def big_zip_case(c) -> dict:
+    """An authentic zip=DEF token whose (highly repetitive) plaintext lies around the decompression limit: whatever comes back is
+    exactly what was encrypted - never a shortened version of it."""
+    from joserfc import jwe
+    from gens.jose import jkey
+    n, enc, ser = c["n"], c["enc"], c["ser"]
+    pt = (b"h" if c["fill"] == "h" else b'{"k":1},') * (n // (1 if c["fill"] == "h" else 8) + 1)
+    pt = pt[:n]
+    ref = {"kty": "oct", "k": bytes(range(rjwe.ENCS[enc][0]))}
+    plan = {"ser": ser, "enc": enc, "zip": "DEF", "plaintext_hex": pt.hex(), "aad_hex": None, "protected": {"alg": "dir", "enc": enc, "zip": "DEF"}, "unprotected": None,
+            "recipients": [{"alg": "dir", "key": gk.key_to_record(ref), "header": None, "kid": None}], "sender": None, "place": "protected"}
+    tok, _ = jp.ref_encrypt(plan, 5, ("canonical", 0))
+    k = jkey(ref, "dict", True)
+    try:
+        got = (jwe.decrypt_compact(tok, k, algorithms=jp.ALL_NAMES) if isinstance(tok, str) else jwe.decrypt_json(tok, k, algorithms=jp.ALL_NAMES)).plaintext
+    except Exception:
+        return {}
+    if got != pt:
+        return {f"C02:zip:returned-other-plaintext:{'shorter' if len(got) < len(pt) else 'other'}":
+                f"decrypting an authentic zip=DEF token of {n} octets ({enc}, {ser}) returned {len(got)} octets that are not the plaintext"}
+    return {}
+
+
 def run_shard(ctx, spec):
     from gens.jose import setup_joserfc
     setup_joserfc()
     selftest.run()
+    if spec["i"] == 0:
+        for n in (255999, 256000, 256001, 256002, 256100, 256200, 256257, 256258, 257000):
+            for fill in ("h", "json"):
+                c = {"kind": "big-zip", "n": n, "fill": fill, "enc": ["A128GCM", "A128CBC-HS256", "C20P"][n % 3], "ser": ["compact", "flattened"][n % 2]}
+                for k_, w in big_zip_case(c).items():
+                    ctx.finding(k_, w, c)
+                ctx.case(("big-zip", n, fill), cls="zip:near-limit")
 
     def body(case):
         try:
@@ -687,6 +717,10 @@ def run_shard(ctx, spec):
 
 
 def replay(rec) -> dict:
+    if rec.get("kind") == "big-zip":
+        from gens.jose import setup_joserfc
+        setup_joserfc()
+        return big_zip_case(rec)
     from gens.jose import setup_joserfc
     setup_joserfc()
     case, fault, entry = rec["case"], rec["fault"], rec["entry"]
